@@ -9,5 +9,6 @@ MCIds == 1..2
 MCOps == {"New", "Copy", "CopyEmpty", "Add", "Sub", "Mul", "Div", "Normalize", "Merge", "Slice",
           "Fill", "IAdd", "IMul", "IDiv", "SetDtype", "SetName"}
 MCSliceArgs == {<<1, NoneIx>>, <<NoneIx, -1>>, <<1, 3>>}
+MCTakeArgs == {<<0>>}
 MCScalars == {<<2, 1, "pyint">>}
 =============================================================================
